@@ -154,6 +154,10 @@ BOUNDS = {
     "for a third of the other 31 entry-point functions; the entry points include subtracted_from / "
     "FitDataset.grids used as the translation by d of base-origin structures, and (on a quarter of the masks) a "
     "fixed-offset fit of the dataset of every origin; "
+    "the resize family is observed at 5 target shapes of Mask2D.resized_from (grow, mixed, shrink, the IDENTITY "
+    "resize new_shape == shape, one dimension kept) and, for Array2D, resized_from to the same shape, "
+    "trimmed_after_convolution_from with kernels 3x3, 1x1, 2x2 (zero cut), 1x3 and padded_before_convolution_from "
+    "with kernels 3x5, 1x1 (zero pad), 1x3; "
     "T: 3 masks (1, 5 and 9 unmasked pixels) x 5 frames x 2 (scale, origin) combinations x 12 special classes x every "
     "entry point; "
     "+ per S case a read-over-sampler-then-derive history (subtracted_from, padded_grid_from); + for one "
@@ -922,7 +926,9 @@ def s_entry_points(aa):
 
     @ep("Mask2D.resized_from")
     def _(ob, cx, o):
-        for shp in ((cx.H + 2, cx.W + 3), (cx.H + 1, cx.W - 1), (max(1, cx.H - 2), cx.W)):
+        # target shapes: grow both, grow/shrink mixed, shrink one, and the degenerate members of the class - the
+        # IDENTITY resize (new shape == shape) and a resize that keeps one dimension
+        for shp in ((cx.H + 2, cx.W + 3), (cx.H + 1, cx.W - 1), (max(1, cx.H - 2), cx.W), (cx.H, cx.W), (cx.H, cx.W + 2)):
             ob.sub("to%dx%d" % shp, lambda shp=shp: ob.mask("to%dx%d" % shp, mk(cx, o).resized_from(new_shape=shp, pad_value=1)))
 
     @ep("Mask2D.rescaled_from")
@@ -949,6 +955,12 @@ def s_entry_points(aa):
         ob.array("resized", arr(cx, o).resized_from(new_shape=(cx.H + 2, cx.W + 1)))
         ob.array("padded_before_convolution", arr(cx, o).padded_before_convolution_from(kernel_shape=(3, 5)))
         ob.sub("trimmed_after_convolution", lambda: ob.array("trimmed_after_convolution", arr(cx, o).trimmed_after_convolution_from(kernel_shape=(3, 3))))
+        # degenerate (zero-cut / zero-pad) members of the same class: the result has the shape of the input
+        ob.sub("resized-identity", lambda: ob.array("resized-identity", arr(cx, o).resized_from(new_shape=(cx.H, cx.W))))
+        for ks in ((1, 1), (2, 2), (1, 3)):
+            ob.sub("trimmed_after_convolution%dx%d" % ks, lambda ks=ks: ob.array("trimmed_after_convolution%dx%d" % ks, arr(cx, o).trimmed_after_convolution_from(kernel_shape=ks)))
+        for ks in ((1, 1), (1, 3)):
+            ob.sub("padded_before_convolution%dx%d" % ks, lambda ks=ks: ob.array("padded_before_convolution%dx%d" % ks, arr(cx, o).padded_before_convolution_from(kernel_shape=ks)))
 
     # ---- datasets
     @ep("Imaging.apply_mask")
